@@ -405,8 +405,6 @@ impl Notifier {
 
     fn keep_reload_pending(&self) {
         if let Some(handle) = self.handle() {
-            #[cfg(feature = "verif_hooks")]
-            verif_hooks::yield_at(verif_hooks::Point::BeforeRemark);
             handle.lock().unwrap().should_reload = true;
         }
     }
@@ -446,7 +444,8 @@ pub mod verif_hooks {
         BeforeSet,
         /// `should_reload`: before the reload flag is read (and the freshness callback polled).
         BeforeCheck,
-        /// `acquire_env`: the creator function failed, before the reload flag is set again.
+        /// `acquire_env`: the creator function failed, before the reload flag is set again
+        /// (reserved; currently not emitted).
         BeforeRemark,
         /// `request_reload`: after the reload flag was set.
         AfterSet,
